@@ -237,6 +237,15 @@ theorem ctx_tie :
     Generated.c_RedirectHandler = RedirectHandler ∧ Generated.c_OptionsHandler = OptionsHandler := by
   decide
 
+/-- **The recorder handed to the next request keeps nothing of the previous one**: the reset method of the recorder embedded
+    in the pooled context (the one `cTx.reset` calls) assigns every field the recorder has - the underlying writer, the
+    status, the size and the hijacked flag today; a field added later and forgotten in reset breaks this. That the values
+    assigned are those of a fresh writer is `recView_fresh` above together with the `ctx` / `rw` streams (second user of a
+    pooled context). Regenerated fact (extract/facts_ctx.go `ctxRecorderReset`). -/
+theorem recorder_reset_total :
+    Generated.recorderFields.length ≥ 4 ∧ Generated.recorderResetAssigned = Generated.recorderFields := by
+  decide
+
 /-- non-vacuity / sensitivity: without the `cachedQuery = nil` of reset a stale query cache would show -/
 example :
     let H : Heap := ⟨fun _ => []⟩
